@@ -178,12 +178,14 @@ Emit ==
       r == IF Known = {} THEN Ideal ELSE Run(a, Known)
   IN PrintT(<<"CASE", ToJson([page |-> page, text |-> a, mt |-> r.stack[1], cov |-> r.cov])>>)
 GenInv == done \/ (Laws /\ Emit)
-\* FILE universe: pages come from outside, the law is reported instead of asserted
+\* FILE universe: pages come from outside; inadmissible ones are skipped, the law is
+\* reported instead of asserted
 EmitF ==
   LET a == Render(page)
       r == IF Known = {} THEN Ideal ELSE Run(a, Known)
-  IN PrintT(<<"CASE", ToJson([page |-> page, text |-> a, mt |-> r.stack[1], cov |-> r.cov,
-                              law |-> Laws])>>)
+  IN IF Admissible(page)
+     THEN PrintT(<<"CASE", ToJson([page |-> page, text |-> a, mt |-> r.stack[1], cov |-> r.cov, law |-> Laws])>>)
+     ELSE PrintT(<<"SKIP", ToJson([text |-> a])>>)
 GenInvF == done \/ EmitF
 \* Demo: with the found behaviour of table_cell_fn the law fails (a caption followed by a data cell)
 DemoAsIs == done \/ Equiv(Run(Render(page), AllParserDevs).stack[1], TreeOf(page))
